@@ -17,11 +17,22 @@
 //!   --named            a fixed list of diagrams with non-trivial web spaces
 //!   --random N         seeded random diagrams, <= --maxsp (6) spiders, <= --maxb (3) boundaries
 //!   --maxbip M         skip/resample diagrams whose bipartite form has more than M spiders (12)
+//!   --api              additionally exercise the public read/write API around a web (audit item #23), per diagram:
+//!                        `lookups` on every webs/renumber event: PauliWeb::edge(u, v) asked for EVERY ordered pair of
+//!                                   vertex names 0..=max (both orders, non-edges, u = v); the answers that are Some
+//!                        pw        `detection_webs::pw` called directly with caller-chosen firing vectors on the
+//!                                   bipartite diagram the call left behind (own index map, own column offset)
+//!                        adj       GraphLike::adjacency_matrix(None) and (Some(list)) on both backends
+//!                        store     PauliWeb::new + a seeded sequence of set_edge calls (either argument order,
+//!                                   repeated pairs), then edge_operators and all lookups
 
 use crate::absg::{abs, build};
 use crate::gens::{self, mk, Family, RandCfg, AV};
 use crate::util::{arg_flag, arg_num, arg_val, guarded, Tr};
-use quizx::detection_webs::{detection_webs, Pauli, PauliWeb};
+use bitgauss::BitMatrix;
+use quizx::detection_webs::{detection_webs, pw, Pauli, PauliWeb};
+use rand::Rng;
+use std::collections::HashMap;
 use quizx::graph::GraphLike;
 use serde_json::{json, Value};
 use std::collections::BTreeMap;
@@ -122,15 +133,136 @@ fn web_json(w: &PauliWeb) -> Value {
     Value::Array(es.into_iter().map(|(u, v, p)| json!([u, v, p])).collect())
 }
 
-/// run detection_webs on `a` and describe the outcome (fields shared by `webs` and `renumber`)
-fn call(a: &Value) -> Value {
+/// PauliWeb::edge asked for every ordered pair (u, v) of 0..=maxid, u = v included: the answers that are Some
+fn lookups_json(w: &PauliWeb, maxid: usize) -> Value {
+    let mut out = vec![];
+    for u in 0..=maxid {
+        for v in 0..=maxid {
+            if let Some(p) = w.edge(u, v) {
+                out.push(json!([u, v, pauli_str(p)]));
+            }
+        }
+    }
+    Value::Array(out)
+}
+
+fn max_id(g: &impl GraphLike) -> usize {
+    g.vertices().max().map(|m| m + 1).unwrap_or(1)
+}
+
+/// run detection_webs on `a` and describe the outcome (fields shared by `webs` and `renumber`);
+/// also hands back the graph the call left behind
+fn call(a: &Value, api: bool) -> (Value, Option<quizx::hash_graph::Graph>) {
     let mut g: quizx::hash_graph::Graph = build(a);
     let r = guarded(|| detection_webs(&mut g));
     match r {
-        Err(msg) => json!({"be": "hash", "res": "panic", "msg": msg, "count": -1}),
-        Ok(ws) => json!({"be": "hash", "res": "ok", "bip": abs(&g), "count": ws.len(),
-                          "webs": ws.iter().map(web_json).collect::<Vec<Value>>(),
-                          "ins": g.inputs(), "outs": g.outputs()}),
+        Err(msg) => (json!({"be": "hash", "res": "panic", "msg": msg, "count": -1}), None),
+        Ok(ws) => {
+            let mut e = json!({"be": "hash", "res": "ok", "bip": abs(&g), "count": ws.len(),
+                               "webs": ws.iter().map(web_json).collect::<Vec<Value>>(),
+                               "ins": g.inputs(), "outs": g.outputs()});
+            if api {
+                // one name beyond the largest: a vertex that does not exist
+                let m = max_id(&g);
+                e["lookups"] = Value::Array(ws.iter().map(|w| lookups_json(w, m)).collect());
+                e["asked_upto"] = json!(m);
+            }
+            (e, Some(g))
+        }
+    }
+}
+
+/// `pw` called directly: the caller owns the index map (matrix column - offset -> vertex) and the firing vector.
+/// `pw` takes the offset from the graph: g.inputs().len() + g.outputs().len().
+fn pw_events(g: &quizx::hash_graph::Graph, r: &mut impl Rng, tags: &[String]) -> Vec<Value> {
+    let mut sp: Vec<usize> = g.vertices().filter(|&v| g.vertex_type(v) != quizx::graph::VType::B).collect();
+    sp.sort();
+    if sp.is_empty() {
+        return vec![];
+    }
+    let off = g.inputs().len() + g.outputs().len();
+    let mut out = vec![];
+    // the empty set, every single spider (<= 4 of them), a few random subsets; node order ascending or shuffled
+    let mut sets: Vec<Vec<usize>> = vec![vec![]];
+    for _ in 0..sp.len().min(4) {
+        sets.push(vec![sp[r.random_range(0..sp.len())]]);
+    }
+    for _ in 0..4 {
+        sets.push(sp.iter().copied().filter(|_| r.random_bool(0.5)).collect());
+    }
+    sets.push(sp.clone());
+    for (k, f) in sets.into_iter().enumerate() {
+        let mut order = sp.clone();
+        if k % 2 == 1 {
+            for i in (1..order.len()).rev() {
+                order.swap(i, r.random_range(0..=i));
+            }
+        }
+        let index_map: HashMap<usize, usize> = order.iter().enumerate().map(|(i, &v)| (i, v)).collect();
+        let mut v = BitMatrix::zeros(1, off + order.len());
+        for (i, x) in order.iter().enumerate() {
+            if f.contains(x) {
+                v.set_bit(0, off + i, true);
+            }
+        }
+        let ev = match guarded(|| pw(&index_map, &v, g)) {
+            Err(msg) => json!({"k": "pw", "res": "panic", "msg": msg, "bip": abs(g), "fire": f, "order": order, "tags": tags}),
+            Ok(w) => json!({"k": "pw", "res": "ok", "bip": abs(g), "fire": f, "order": order, "web": web_json(&w),
+                            "lookups": lookups_json(&w, max_id(g)), "asked_upto": max_id(g), "tags": tags}),
+        };
+        out.push(ev);
+    }
+    out
+}
+
+fn adj_event<G: GraphLike>(a: &Value, be: &str, how: &str, r: &mut impl Rng, tags: &[String]) -> Value {
+    let g: G = build(a);
+    let all: Vec<usize> = g.vertices().collect(); // the order adjacency_matrix(None) documents: "all vertices in the graph"
+    let list: Option<Vec<usize>> = match how {
+        "none" => None,
+        "rev" => {
+            let mut l = all.clone();
+            l.sort();
+            l.reverse();
+            Some(l)
+        }
+        _ => {
+            let mut l: Vec<usize> = all.iter().copied().filter(|_| r.random_bool(0.6)).collect();
+            for i in (1..l.len()).rev() {
+                l.swap(i, r.random_range(0..=i));
+            }
+            Some(l)
+        }
+    };
+    let order = list.clone().unwrap_or(all);
+    match guarded(|| g.adjacency_matrix(list.as_deref())) {
+        Err(msg) => json!({"k": "adj", "be": be, "how": how, "res": "panic", "msg": msg, "order": order, "tags": tags}),
+        Ok(m) => {
+            let rows: Vec<Vec<u8>> = (0..m.rows()).map(|i| (0..m.cols()).map(|j| m.bit(i, j) as u8).collect()).collect();
+            json!({"k": "adj", "be": be, "how": how, "res": "ok", "order": order, "rows": rows, "ncols": m.cols(), "tags": tags})
+        }
+    }
+}
+
+/// PauliWeb::new + set_edge with caller-chosen arguments
+fn store_event(r: &mut impl Rng, tags: &[String]) -> Value {
+    let n = r.random_range(2..=6usize);
+    let nops = r.random_range(0..=10usize);
+    let ops: Vec<(usize, usize, Pauli)> = (0..nops)
+        .map(|_| (r.random_range(0..n), r.random_range(0..n), [Pauli::X, Pauli::Y, Pauli::Z][r.random_range(0..3)]))
+        .collect();
+    let ops_j: Vec<Value> = ops.iter().map(|&(u, v, p)| json!([u, v, pauli_str(p)])).collect();
+    match guarded(|| {
+        let mut w = PauliWeb::new();
+        let empty = w.edge_operators.is_empty();
+        for &(u, v, p) in &ops {
+            w.set_edge(u, v, p);
+        }
+        (w, empty)
+    }) {
+        Err(msg) => json!({"k": "store", "res": "panic", "msg": msg, "ops": ops_j, "tags": tags}),
+        Ok((w, empty)) => json!({"k": "store", "res": "ok", "ops": ops_j, "new_is_empty": empty, "web": web_json(&w),
+                                 "lookups": lookups_json(&w, n), "asked_upto": n, "tags": tags}),
     }
 }
 
@@ -147,6 +279,9 @@ pub struct St {
     pub webs: usize,
     pub panics: usize,
     pub with_webs: usize,
+    pub api: bool,
+    pub api_events: usize,
+    pub rng: rand::rngs::StdRng,
 }
 
 pub fn record_diagram(a0: &Value, tr: &mut Tr, st: &mut St) {
@@ -167,9 +302,29 @@ pub fn record_diagram(a0: &Value, tr: &mut Tr, st: &mut St) {
             st.panics += 1;
         }
     };
-    let e = merge(json!({"k": "webs", "num": "first", "tags": tags(&first, "first")}), call(&first));
+    let (ce, left) = call(&first, st.api);
+    let e = merge(json!({"k": "webs", "num": "first", "tags": tags(&first, "first")}), ce);
     note(&e, st);
     tr.emit(e);
+    if st.api {
+        let t = tags(&first, "first");
+        let mut evs = vec![];
+        if let Some(g) = &left {
+            evs.extend(pw_events(g, &mut st.rng, &t));
+        }
+        for how in ["none", "rev", "sub"] {
+            evs.push(adj_event::<quizx::hash_graph::Graph>(&first, "hash", how, &mut st.rng, &t));
+            evs.push(adj_event::<quizx::vec_graph::Graph>(&first, "vec", how, &mut st.rng, &t));
+        }
+        evs.push(store_event(&mut st.rng, &t));
+        st.api_events += evs.len();
+        for ev in evs {
+            if ev["res"] != "ok" {
+                st.panics += 1;
+            }
+            tr.emit(ev);
+        }
+    }
     // the trait method on the other backend
     {
         let mut g: quizx::vec_graph::Graph = build(&first);
@@ -187,7 +342,7 @@ pub fn record_diagram(a0: &Value, tr: &mut Tr, st: &mut St) {
         let m = numbering(&first, how);
         let a = rename(&first, &m);
         let mp: Vec<Value> = m.iter().map(|(x, y)| json!([x, y])).collect();
-        let e = merge(json!({"k": "renumber", "num": how, "map": mp, "pre": a, "tags": tags(&a, how)}), call(&a));
+        let e = merge(json!({"k": "renumber", "num": how, "map": mp, "pre": a, "tags": tags(&a, how)}), call(&a, st.api).0);
         note(&e, st);
         tr.emit(e);
     }
@@ -279,7 +434,8 @@ fn named() -> Vec<Value> {
 }
 
 pub fn record(args: &[String], seed: u64, tr: &mut Tr) -> Value {
-    let mut st = St { diagrams: 0, calls: 0, webs: 0, panics: 0, with_webs: 0 };
+    let mut st = St { diagrams: 0, calls: 0, webs: 0, panics: 0, with_webs: 0, api: arg_flag(args, "--api"), api_events: 0,
+                      rng: gens::rng(seed ^ 0xc20a) };
     let maxbip: usize = arg_num(args, "--maxbip", 12);
     let stride: usize = arg_num(args, "--stride", 1usize).max(1);
     let offset = seed as usize % stride;
@@ -339,5 +495,6 @@ pub fn record(args: &[String], seed: u64, tr: &mut Tr) -> Value {
         }
     }
     json!({"diagrams": st.diagrams, "enumerated": enumerated, "named": nnamed, "random": nrand, "resampled_too_big": resampled,
-           "calls": st.calls, "webs_returned": st.webs, "calls_with_webs": st.with_webs, "panics": st.panics})
+           "calls": st.calls, "webs_returned": st.webs, "calls_with_webs": st.with_webs, "panics": st.panics,
+           "api_events": st.api_events})
 }
